@@ -95,27 +95,29 @@ def r1(ctx, F):
                             rel_ok = bool(a1) and all(x.kind == 'call' and x.key == 'std::iter::Iterator::next' for x in a1) and from_plan_transfer(pfl, a1)
                             good = good and root_ok and rel_ok
                         else:
-                            # format!("{}/{}", remote_root, rel.display())
-                            if not (o.kind == 'call' and o.key == 'std::fmt::format'):
+                            # "<remote_root>/<rel>": evaluated symbolically from the values the string is built of (any spelling:
+                            # format!("{}/{}", root, rel.display()), inline arguments, a pre-rendered rel_disp, ...)
+                            def leaf(fl_, op_, _pb=pb):
+                                os_ = [x for x in fl_.origins(op_) if x.kind != 'comb']
+                                if os_ and all((x.kind == 'upvar' and canon(F, _pb, _pb.upvars.get(int(x.key))) == rootname) or
+                                               (x.kind == 'param' and canon(F, _pb, _pb.local_name(x.key)) == rootname) for x in os_):
+                                    return ('root',)
+                                if os_ and all(x.kind == 'call' and x.key == 'std::iter::Iterator::next' for x in os_) and from_plan_transfer(fl_, os_):
+                                    return ('rel',)
+                                return None
+                            if not (o.kind == 'call' and o.bb is not None):
                                 good = False
                                 continue
-                            site = shtemplate.Templates(F).site_of_call(pb, o.bb)
-                            if site is None:
-                                good = False
-                                continue
-                            holes = [p for p in site['pieces'] if not isinstance(p, str)]
-                            lits = [p for p in site['pieces'] if isinstance(p, str)]
-                            a = site['args']
-                            shape_ok = len(holes) == 2 and lits == ['/'] and canon(F, pb, a[holes[0]['arg']].get('name')) == rootname and \
-                                a[holes[1]['arg']].get('k') == 'mcall' and a[holes[1]['arg']]['method'] == 'display' and plan_loop_var(pb, pfl, a[holes[1]['arg']]['recv'].get('name'))
-                            good = good and shape_ok
+                            pcs = merge_pieces(str_pieces(F, pfl, {'k': 'copy', 'p': pb.blocks[o.bb]['term']['dst']}, leaf))
+                            good = good and pcs == [('root',), '/', ('rel',)]
                     if not good:
                         ok = False
                         why.append('argument %d is not %s(%s, rel of plan.transfer)' % (ai, shape, rootname))
                 ctx.check(ok, 'C04.R1', '%s:%s' % (fn.split('::')[-1], callee_path.split('::')[-1]), 'paths built from the destination/source roots and the plan.transfer entry',
                           'the delivery call does not get paths derived from the roots and the same plan.transfer entry: %s' % '; '.join(why), term_loc(body, cb))
         if not found:
-            ctx.bad('C04.R1', '%s:%s-exists' % (fn.split('::')[-1], callee_path.split('::')[-1]), '%s no longer delivers through %s' % (fn, callee_path), None)
+            # the delivery helper is gone or unused: where the files are delivered now is outside what this rule models
+            ctx.undecided('C04.R1', '%s no longer delivers through %s (helper %s)' % (fn, callee_path, 'removed' if F.body(callee_path) is None else 'not called'))
 
 
 def plan_loop_var(body, fl, name):
@@ -130,7 +132,7 @@ def plan_loop_var(body, fl, name):
 
 def from_plan_transfer(fl, next_origins):
     for o in next_origins:
-        io = call_arg_origins(fl, o.bb, 0)
+        io = call_arg_origins(fl, o.bb, 0) | iterated_collection(fl, o.bb)
         if not any(x.kind == 'call' and x.key == 'plan::build_plan' and x.path[-1:] == ('transfer',) for x in io):
             return False
     return True
